@@ -176,15 +176,20 @@ def regD (regs : List Val) (i : Nat) : Val := regs.getD i .none
 /-- **the instruction is none of the listed deviations** on the operand values it is about to read:
 boolean declarations of non-boolean values (`mk privb/pubb`, `wrapb`, mixed boolean operators and
 comparisons, `b.assert_xx(o)`), zero divisors, a secret shift count for `>>`, negative public
-exponents/shift counts, a non-boolean public selector, secret-containing literals; `set ign` is
-outside the property -/
+exponents/shift counts, a non-boolean public selector, secret-containing literals; a selection
+(`if_then_else`, an array write through a secret index) that meets lists of different lengths — the
+`ValueError` of its length check depends on public structure only and is raised whatever the guard
+is —; `set ign` is outside the property -/
 def stepOk (r : Nat) (regs : List Val) : Instr → Bool
   | .lit v => v.noSecret
   | .mk k a => mkOk k (regD regs a)
   | .wrapb a => (regD regs a).boolishLC
   | .bin op a b => binOk r op (regD regs a) (regD regs b)
   | .call m self args => callOk m (regD regs self) (args.map (regD regs))
-  | .ite c _ _ => iteOk (regD regs c)
+  | .ite c t f => iteOk (regD regs c) && selOk (regD regs t) (regD regs f)
+  | .aset a i v => (match regD regs a with
+    | .list xs => asetOk xs (regD regs i) (regD regs v)
+    | _ => true)
   | .setIgn _ => false
   | _ => true
 
@@ -263,8 +268,8 @@ theorem step_inert_plain {regs : List Val} {frames : List GuardBak} {i : Instr} 
     refine Inert.bind (getReg_inert regs c) (fun cv hc => ?_)
     refine Inert.bind (getReg_inert regs t) (fun tv ht => ?_)
     refine Inert.bind (getReg_inert regs f) (fun fv hf => ?_)
-    simp only [stepOk, hc.2] at hok
-    exact Inert.bind (ifThenElse_inert _ hok (hregs cv hc.1) (hregs tv ht.1) (hregs fv hf.1)) (fun r hr => Inert.pure ⟨hr, hregs, rfl⟩)
+    simp only [stepOk, hc.2, ht.2, hf.2, Bool.and_eq_true] at hok
+    exact Inert.bind (ifThenElse_inert _ hok.1 (hregs cv hc.1) (hregs tv ht.1) (hregs fv hf.1) hok.2) (fun r hr => Inert.pure ⟨hr, hregs, rfl⟩)
   case list xs =>
     simp only [step]
     refine Inert.bind (getRegs_inert regs xs) (fun vs hvs => ?_)
@@ -305,11 +310,12 @@ theorem step_inert_plain {regs : List Val} {frames : List GuardBak} {i : Instr} 
   case aset a k w =>
     simp only [step]
     refine Inert.bind (getReg_inert regs a) (fun av ha => ?_)
-    refine Inert.bind (getReg_inert regs k) (fun iv _ => ?_)
+    refine Inert.bind (getReg_inert regs k) (fun iv hi => ?_)
     refine Inert.bind (getReg_inert regs w) (fun vv hv => ?_)
+    simp only [stepOk, ha.2, hi.2, hv.2] at hok
     cases av
     case list xs =>
-      refine Inert.bind (arraySet_inert (BoolV_list.mp (hregs _ ha.1)) iv (hregs _ hv.1)) (fun xs' hxs' => ?_)
+      refine Inert.bind (arraySet_inert (BoolV_list.mp (hregs _ ha.1)) iv (hregs _ hv.1) hok) (fun xs' hxs' => ?_)
       refine Inert.pure ⟨BoolV_none, ?_, rfl⟩
       intro z hz
       rcases List.mem_or_eq_of_mem_set hz with hz | rfl
@@ -627,6 +633,7 @@ def Instr.alwaysOk : Instr → Bool
   | .bin op _ _ => op == .add || op == .sub || op == .mul
   | .call m _ _ => !m.isAssertCmp
   | .ite _ _ _ => false
+  | .aset _ _ _ => false
   | .setIgn _ => false
   | _ => true
 
